@@ -633,3 +633,30 @@ func VerifC06_UnmergedExpiryAndNegativeAcrossMerge() {
 	got, err := w.pc.Get(context.Background(), "B")
 	verif_Assert(err == nil && got == nil, "and is not returned by lookups either")
 }
+
+// C06 (expiry after a cancelled refresh): a refresh cancelled part-way — after
+// a source already reported the provider — does not postpone the provider's
+// removal: once no source reports it, it is visible until its time-to-live has
+// elapsed and gone after the next refresh, exactly as if the cancelled refresh
+// had not happened.
+func VerifC06_CancelledRefreshThenExpiry() {
+	old := c06pids
+	c06pids = []peer.ID{"P"}
+	defer func() { c06pids = old }()
+	w := c06new()
+	w.seed() // P at time 1
+	// s1 still reports P (same or newer record); s2 finds the context cancelled
+	w.srcs[0].content["P"] = c06entry{present: true, ti: verif_Choose("timeInCancelledRefresh", 1, 2)}
+	w.srcs[1].fail, w.srcs[1].cancel = true, true
+	w.cx.cancelled = false
+	err := w.pc.Refresh(w.cx)
+	verif_Assert(err != nil, "the cancelled refresh reports the cancellation")
+	w.srcs[1].fail, w.srcs[1].cancel = false, false
+	for i := 0; i < 3; i++ {
+		if i > 0 || verif_Bool("tick") {
+			w.tick()
+		}
+		w.refreshAbsent()
+	}
+	verif_Reach("history done")
+}
